@@ -18,14 +18,26 @@ META = {
             'Independent of how validType is written: the stream `accept` calls the real purl.FromString on a well-formed purl of every emitted type (and, informationally, '
             'of every purl.Type* constant), and the `layout` harvest extracts the OS extractors\' fixtures at their PRODUCTION paths (dpkg status at usr/lib/opkg/status where '
             'ToPURL switches to type opkg, status.d, apk, rpm, cos, snap, pacman, portage, flatpak, kernel modules, nix store, macapps, homebrew) under 9 etc/os-release variants. '
+            'Conversions (all packages): the model of binary/proto packageToProto / purlToProto / layerDetailsToProto / annotationsToProto copies name, version, locations (order kept), '
+            'extractor, ecosystem, source code, the purl ToPURL returned field by field (qualifiers in order), layer details (index within int32) verbatim, one record per package in order '
+            '(tied to the real ScanResultToProto by the `proto` stream: harvested packages of every extractor + every metadata type of the proto switch + nasty strings); the model of '
+            'ToSPDX23 / ToCDX (Model/Sbom.lean, tied by C15\'s stream) carries name / version / purl string (+ all locations for CycloneDX) of each package. '
+            'With this the PROVABLE part covers every clause of the property except (a) the behaviour of the 58 ToPURL / Ecosystem implementations on what Extract returned (no panic, non-empty '
+            'name and location) and (b) packageurl-go\'s printing/parsing (idempotence), which are third-party / per-extractor code exercised by the harvest, layout, accept and purlrt streams only. '
             'NOT proved: absence of panics in 58 ToPURL/Ecosystem implementations on arbitrary Extract output, packageurl-go print∘parse idempotence, non-empty name/location, '
             'converter field preservation — these are exercised by the harvest over all fixtures only (C03 generators / C02 corpus are not wired in).',
     'note': 'Trusted: Lean kernel; the go/ast translator (copies constants, map keys and selector names faithfully; output is human-diffable); harness and line protocol. '
-            'Known finding C14/no-location: chrome/extensions and dotnet/pe emit packages without Locations (their unit tests pin that).',
+            'Known findings: C14/no-location (chrome/extensions and dotnet/pe emit packages without Locations; their unit tests pin that); C14/golang-case-normalised (go.mod module paths '
+            'with upper-case letters: purl.FromString lower-cases golang namespace/name, so print∘parse∘print differs from print).',
 }
 NS = 'Scalibr.Index.'
 THEOREMS = [NS + t for t in ['C14_types_accepted', 'C14_types_resolved', 'C14_extractors_covered', 'C14_valid_lowercase',
-                             'C14_index', 'C14_index_type', 'C14_index_all', 'C14_index_has', 'C14_index_only']]
+                             'C14_index', 'C14_index_type', 'C14_index_all', 'C14_index_has', 'C14_index_only']] + \
+           ['Scalibr.ProtoPkg.' + t for t in ['toInt32_id', 'C14_proto_fields', 'C14_proto_purl', 'C14_proto_layer_partial', 'C14_proto_layer_wraps',
+                                             'C14_proto_annotations', 'C14_proto_list']] + \
+           ['Scalibr.Sbom.' + t for t in ['C14_spdx_fields', 'C14_cdx_fields']]
+KF_GOCASE = 'C14/golang-case-normalised'
+PROTO_KEYS = ['name', 'version', 'locs', 'src', 'anns', 'layer', 'purl', 'eco', 'ex', 'meta', 'pstr']
 KF_NOLOC = 'C14/no-location'
 NOLOC_EXTRACTORS = {'chrome/extensions', 'dotnet/pe'}
 
@@ -105,7 +117,10 @@ def run(ctx):
                        'standalone extractors (they read the running system) are covered by the type table only, not by the harvest',
                        'SPDX output summarises locations in free text and uses the purl\'s name/version by design; compared fields: name, version, purl locator, package count',
                        'Go map iteration order: GetAll / GetAllOfType compared as sets']
-    ctx.rule = ('accept = the real purl.FromString on "pkg:<type>/ns/name@1.0" and on String() of a built PackageURL for every emitted type (oracle) and every Type* constant (reported); '
+    ctx.rule = ('proto = generic fields of real harvested packages (<= 6 per fixture) + every metadata sample (28 switch types + 5 unknown) x 2 + random packages with nasty strings, nil/empty '
+                'variants, annotations 0..4/-1/2^40, layer indexes up to 2^32+5 -> real ScanResultToProto vs the Lean model, field by field; '
+                'purlrt = every emitted purl type x {name, namespace, version, qualifier value, subpath} x 15 byte classes needing escaping: parses, print∘parse∘print = print, index finds it; '
+                'accept = the real purl.FromString on "pkg:<type>/ns/name@1.0" and on String() of a built PackageURL for every emitted type (oracle) and every Type* constant (reported); '
                 'layout = the OS fixtures at production paths x 9 os-release variants through filesystem.Run with all built-in extractors; '
                 'harvest = every file (<= 8 MiB) under every built-in filesystem extractor\'s testdata, copied to a scratch dir, extracted with that extractor; per fixture the packages are '
                 'converted as produced and again with name/version mutated to need percent-encoding; index = the (type, name) list of each fixture\'s packages (first 40) plus random lists of '
@@ -132,6 +147,7 @@ def run(ctx):
     n = {'quick': 3000, 'thorough': 40000}[ctx.tier]
     totals = {'packages': 0, 'purls': 0, 'fixtures': 0, 'extractors': set()}
     rejected_consts = []
+    dropped_meta = set()
     unparsed = []
 
     def nontrivial(case, fi, fm):
@@ -140,6 +156,8 @@ def run(ctx):
             return fi.get('pk', '0') not in ('0', '')
         if t[0] == 'accept':
             return t[1] == 'e'
+        if t[0] in ('proto', 'purlrt'):
+            return True
         return t[1].count(',') >= 1
 
     def issues_of(fi):
@@ -181,12 +199,35 @@ def run(ctx):
             if fi.get('idem') != '1':
                 return 'purl type %r (emitted by %s): print∘parse of a well-formed purl of that type is not idempotent' % (typ, unhex(t[3]))
             return None
+        if t[0] == 'proto':
+            if not fm or '_' in fm:
+                return None
+            bad = [k for k in PROTO_KEYS if fi.get(k) != fm.get(k)]
+            mt = unhex(t[10]) if t[10] != '_' else ''
+            if t[10] != '_' and fi.get('meta') == '0' and not mt.endswith('main.unknownMeta') and '/' in mt:
+                dropped_meta.add(mt)
+            if bad:
+                return 'the result proto does not carry the package\'s fields verbatim: ' + '; '.join('%s: proto has %s, package has %s' % (k, fi.get(k), fm.get(k)) for k in bad[:4])
+            return None
+        if t[0] == 'purlrt':
+            if fi.get('ok') != '1' or fi.get('same') != '1' or fi.get('idx') != '1':
+                return 'purl of type %r with %s = %r: %s%s (%s)' % (unhex(t[1]), t[2], unhex(t[3]),
+                    'purl.FromString(String()) fails' if fi.get('ok') != '1' else 'printing, parsing and printing again changes the string' if fi.get('same') != '1' else '',
+                    '; the package index does not return the package for (Name, Type)' if fi.get('idx') != '1' else '', unhex(fi.get('back', '-')))
+            return None
         if t[0] == 'index' and 'spec' in fm and fi.get('obs') != fm['spec']:
             return 'packageindex answers %s but the filter of the indexed list is %s' % (fi.get('obs', '')[:300], fm['spec'][:300])
         return None
 
     def finding_class(case, fi, fm):
         t = case.split(' ')
+        # class predicate: the only issue is that print∘parse changes the purl, every witness is a golang purl and the two
+        # strings differ in letter case only (packageurl-go lower-cases golang namespace/name; Go module paths are case-sensitive)
+        if t[0] in ('harvest', 'layout') and issues_of(fi) and set(issues_of(fi)) <= {'purl-roundtrip-differs', 'mut-purl-roundtrip-differs'}:
+            wit = [unhex(b) for b in fi.get('bad', '-').split(',') if b != '-']
+            pairs = [w.split(' | ')[2].split(' -> ') for w in wit if ' -> ' in w]
+            if pairs and all(len(p) == 2 and p[0].startswith('pkg:golang/') and p[0] != p[1] and p[0].lower() == p[1].lower() for p in pairs):
+                return KF_GOCASE
         # class predicate: the ONLY issue is a missing location and the extractor is one of the two whose tests pin that
         if t[0] == 'harvest' and issues_of(fi) == ['no-location'] and unhex(t[1]) in NOLOC_EXTRACTORS:
             return KF_NOLOC
@@ -198,14 +239,22 @@ def run(ctx):
             return 'harvest:' + ('no-packages' if fi.get('pk') == '0' else 'issues=' + fi.get('issues', '?'))
         if t[0] == 'layout':
             return 'layout:issues=' + fi.get('issues', '?')
+        if t[0] == 'proto':
+            return 'proto:meta=%s purl=%s layer=%s' % (fi.get('meta'), 'nil' if fi.get('purl') == '_' else 'set', 'nil' if fi.get('layer') == '_' else 'set')
+        if t[0] == 'purlrt':
+            return 'purlrt:' + ('ok' if (fi.get('ok'), fi.get('same'), fi.get('idx')) == ('1', '1', '1') else 'FAIL')
         if t[0] == 'accept':
             return 'accept-%s:%s' % ({'e': 'emitted', 'c': 'constant'}[t[1]], 'accepted' if fi.get('acc') == '1' and fi.get('accs') == '1' else 'REJECTED')
         return 'index'
 
     lib.standard_stream(ctx, gen='c14gen', driver='drv_c14', gen_args=['-seed', str(ctx.seed), '-n', str(n), '-tier', ctx.tier] + (['-types', types_file] if types_file else []),
-                        compare_keys=['obs'], nontrivial=nontrivial, oracle=oracle, classify=classify, finding_class=finding_class, sample_every=211)
+                        compare_keys=['obs', 'ok', 'same', 'idx'] + PROTO_KEYS, nontrivial=nontrivial, oracle=oracle, classify=classify, finding_class=finding_class, sample_every=211)
     if unparsed:
         ctx.notes.append('emitted purl types for which no probe shape parses in packageurl-go (not judged): ' + ', '.join(unparsed))
+    if dropped_meta:
+        ctx.notes.append('metadata types emitted by built-in extractors that binary/proto.setProtoMetadata has no case for (the proto `metadata` oneof is left unset, silently; '
+                         'generic fields are unaffected): ' + ', '.join(sorted(dropped_meta)))
+        ctx.extra['proto_metadata_not_converted'] = sorted(dropped_meta)
     if rejected_consts:
         ctx.notes.append('purl type constants declared in purl.go that purl.FromString rejects (informational: no built-in ToPURL emits them): ' + ', '.join(rejected_consts))
     ctx.extra['layout_packages'] = totals.get('layout_packages', 0)
@@ -214,6 +263,8 @@ def run(ctx):
         if totals['packages'] < 500:
             ctx.violation('the harvest produced only %d packages from %d fixtures (expected about a thousand): fixtures moved or extractors fail wholesale' % (totals['packages'], totals['fixtures']),
                           ['# harvest too small'], found_input=False, name='harvest-small')
+        if KF_GOCASE in ctx.known and KF_GOCASE not in ctx.known_hits:
+            ctx.violation('known finding %s no longer reproduces from the fixtures: update known_findings.txt' % KF_GOCASE, ['# ' + KF_GOCASE], found_input=False, name='stale-C14-golang-case')
         if KF_NOLOC in ctx.known and KF_NOLOC not in ctx.known_hits:
             ctx.violation('known finding %s no longer reproduces from the fixtures: update known_findings.txt' % KF_NOLOC, ['# ' + KF_NOLOC], found_input=False, name='stale-C14-no-location')
     if not proofs_ok:
